@@ -45,9 +45,9 @@ const char* START = "rnbqkbnr/pppppppp/8/8/8/8/PPPPPPPP/RNBQKBNR w KQkq - 0 1";
 const int MAX_CAPTURES = 6;   // 32 - 6 = 26 men
 
 // ---------------------------------------------------------------- generator
-enum Theme { TH_UNIFORM = 0, TH_CASTLE, TH_PROMO, TH_EP, TH_HOME, TH_QUIET, TH_CAPTURES, TH_PAWNS, TH_SCRIPT, NTHEMES };
+enum Theme { TH_UNIFORM = 0, TH_CASTLE, TH_PROMO, TH_EP, TH_HOME, TH_QUIET, TH_CAPTURES, TH_PAWNS, TH_SCRIPT, TH_ROOKSAC, NTHEMES };
 const char* themeName(int t) {
-    static const char* n[] = {"uniform", "develop+castle", "promotion race", "e.p.", "king/rook out and home", "quiet", "captures", "pawns", "scripted opening"};
+    static const char* n[] = {"uniform", "develop+castle", "promotion race", "e.p.", "king/rook out and home", "quiet", "captures", "pawns", "scripted opening", "castle, then the castled rook is captured"};
     return n[t];
 }
 
@@ -75,6 +75,7 @@ const std::vector<std::vector<std::string>>& scripts() {
 struct GameInfo {
     gen::Game g;
     int captures = 0, promotions = 0, castles = 0, epCaptures = 0, theme = 0;
+    bool pawnTakesRookAfterCastle = false;
     std::vector<char> isCastle; // per move
     bool scriptBroken = false; std::string brokenAt;
 };
@@ -117,6 +118,18 @@ int moveWeight(const ref::Pos& p, const ref::Move& m, int theme, bool capturesAl
         else if (pc == 'p' && ref::Y(m.from) == (w ? 1 : 6)) wt += 6;
         break;
     }
+    case TH_ROOKSAC: {
+        // develop and castle; afterwards rooks that have left their corners advance and pawns take rooks: the pieces a
+        // castling move placed are captured later in the game
+        bool corner = m.from == ref::SQ(0, home) || m.from == ref::SQ(7, home);
+        if (ref::isCastle(p, m)) wt += 400;
+        else if (cap && pc == 'p' && ref::lower(p.b[m.to]) == 'r') wt += 600;
+        else if (pc == 'r' && !corner) wt += 10 + 6 * adv * adv;
+        else if (pc == 'k' || pc == 'r') wt = 1;
+        else if ((pc == 'n' || pc == 'b' || pc == 'q') && ref::Y(m.from) == home) wt += 16;
+        else if (pc == 'p' && ref::Y(m.from) == (w ? 1 : 6)) wt += 8;
+        break;
+    }
     case TH_QUIET: if (!cap && pc != 'p') wt += 20; break;
     case TH_CAPTURES: if (cap) wt += 60; break;
     case TH_PAWNS: if (pc == 'p') wt += 20; break;
@@ -138,6 +151,7 @@ GameInfo genGame(Choices& c, int maxPlies, bool longBias = false) {
         if (ref::isEp(p, m)) gi.epCaptures++;
         if (m.promo) gi.promotions++;
         bool cs = ref::isCastle(p, m);
+        if (gi.castles && ref::isCapture(p, m) && ref::lower(p.b[m.from]) == 'p' && ref::lower(p.b[m.to]) == 'r') gi.pawnTakesRookAfterCastle = true;
         if (cs) gi.castles++;
         gi.isCastle.push_back(cs);
         g.moves.push_back(m);
@@ -329,6 +343,7 @@ struct Checker {
         if (gi.captures >= 3) st.clsSample(pre + ">=3 captures", mk);
         if (lostHome) st.clsSample(pre + "castling right lost, king and rook at home", mk);
         if (gi.castles) st.clsSample(pre + "game with castling", mk);
+        if (gi.pawnTakesRookAfterCastle) st.cls(pre + "game with castling and a later pawn-takes-rook capture");
         if (gi.epCaptures) st.clsSample(pre + "game with e.p. capture", mk);
         if (f.men() == 26) st.clsSample(pre + "26 men", mk);
         if (gi.theme == TH_SCRIPT) st.cls(pre + "scripted opening");
